@@ -118,3 +118,29 @@ Qed.
 Lemma marshal_twice_same_fixed :
   forall r1 r2, r1 = encode_e venc_bit 8 w_p -> r2 = encode_e venc_bit 8 w_p -> r1 = r2.
 Proof. intros r1 r2 -> ->. reflexivity. Qed.
+
+(** ** 4. decoding into a variable that already holds a dictionary.
+    (a) before "fix: reset a Hashmap before decoding into it": Hashmap.mapInner
+    appends to the receiver's slices and Hashmap.UnmarshalTLB did not empty them,
+    so a plain Hashmap variable / a Ref[Hashmap] struct field decoded twice
+    held the entries of both dictionaries (Uint8 {1, 2} then {7}: 1, 2, 7). *)
+Definition w_d1 : list (bits * bool) := [(bits_of 8 1, true); (bits_of 8 2, false)].
+Definition w_d2 : list (bits * bool) := [(bits_of 8 7, true)].
+
+Lemma decode_accumulates_before_fix :
+  exists c1 c2, encode venc_bit 8 w_d1 = Ok c1 /\ encode venc_bit 8 w_d2 = Ok c2 /\
+    hdecode_appending vdec_bit 8 (fst (hdecode_appending vdec_bit 8 [] c1)) c2 = (w_d1 ++ w_d2, true) /\
+    hdecode vdec_bit false 8 (fst (hdecode vdec_bit false 8 [] c1)) c2 = (w_d2, true).
+Proof. vm_compute. eexists. eexists. repeat split; reflexivity. Qed.
+
+(** (b) seeded change C05-r3m2 (never shipped): HashmapE.UnmarshalTLB assigning the
+    decoded map only when the Maybe bit is set.  Decoding the EMPTY dictionary
+    (the single bit 0) into a variable holding {1, 2} keeps {1, 2}; re-encoding
+    gives 1 + a reference instead of the single bit 0. *)
+Lemma decode_conditional_design_refuted :
+  let empty := Cell [false] [] in
+  hdecode_conditional vdec_bit 8 w_d1 empty = (w_d1, true) /\
+  hdecode vdec_bit true 8 w_d1 empty = ([], true) /\
+  encode_e venc_bit 8 (fst (hdecode vdec_bit true 8 w_d1 empty)) = Ok empty /\
+  exists c, encode_e venc_bit 8 (fst (hdecode_conditional vdec_bit 8 w_d1 empty)) = Ok c /\ c <> empty.
+Proof. cbn zeta. repeat split; try reflexivity. vm_compute. eexists. split; [reflexivity|discriminate]. Qed.
